@@ -19,6 +19,7 @@ BOUNDS = ('all data bit patterns; run-time index vectors: every vector with entr
           'Outside: compile-time masks not in the family.')
 ASSUMPTIONS = ['clang-14 -O1 lowering is correct', 'x86 intrinsic models', 'run-time indices < size, extract_pair index < size (asserted by the library)',
                'batch_bool masks canonical']
+VAL_BUDGET = 6      # seconds of translator validation per body (instantiating the 32/64-lane compress / expand / extract_pair formulas is slow)
 MIN_COVERED = {'quick': 2500, 'thorough': 20000}
 QUICK_ARCHS = ['sse2', 'ssse3', 'sse4_1', 'avx', 'avx2', 'avx512f', 'avx512bw', 'avx512vbmi', 'avx512vbmi2']
 
